@@ -1,0 +1,79 @@
+//go:build verif
+
+// Contracts for package writeaheadlog, read by /verif/govc. Comments only. The generic methods are addressed by
+// their bracket-free names; they are verified at their only instantiation (f3.walEntry).
+
+package writeaheadlog
+
+// What Purge and restart rely on: the per-file statistic is an upper bound of the epochs of the records in that
+// file. It is established by Append (for the file being written) and by readLogFile (when a directory is read
+// back), whatever state the tail of the file is in.
+
+//@ func (*WriteAheadLog).readLogFile
+//@   property C11, C12
+//@   modifies auto
+//@   maypanic
+//@   at return 3
+//@     before[stat_names_the_file_and_carries_the_max_epoch_of_what_was_read] arg(2) == nil && arg(0).logName == logname && arg(0).maxEpoch == maxEpoch && arg(1) == content
+//@   at return 4
+//@     before[stat_names_the_file_and_carries_the_max_epoch_of_what_was_read] arg(2) == nil && arg(0).logName == logname && arg(0).maxEpoch == maxEpoch && arg(1) == content
+//@   at return 5
+//@     before[damaged_tail_keeps_the_records_and_stat_read_so_far] arg(2) == nil && arg(0).logName == logname && arg(0).maxEpoch == maxEpoch && arg(1) == content
+//@   at loopback 1
+//@     before[max_epoch_covers_every_decoded_record] err == nil ==> maxEpoch >= res(WALEpoch, 1) && maxEpoch >= prev(maxEpoch)
+//@     before[undecodable_tail_changes_nothing] err != nil ==> maxEpoch == prev(maxEpoch) && content == prev(content)
+//@     before[decoded_records_are_kept_in_order] err == nil && keepVaues ==> len(content) == len(prev(content)) + 1
+
+//@ func (*WriteAheadLog).Append
+//@   property C11, C12
+//@   requires wal.active.file == nil ==> wal.active.maxEpoch == 0
+//@   modifies auto
+//@   maypanic
+//@   ensures[acknowledged_entry_is_covered_by_the_active_files_stat] result == nil ==> wal.active.file != nil && wal.active.maxEpoch >= res(WALEpoch, 1)
+//@   at Sync 1
+//@     before[synced_after_the_write] dominatedBy(WriteTo, 1) && res(WriteTo, 1, 1) == nil && arg(0) == wal.active.file
+//@   at WriteTo 1
+//@     before[writes_the_encoding_into_the_active_file] res(MarshalCBOR, 1) == nil && dominatedBy(maybeRotate, 1) && res(maybeRotate, 1) == nil
+//@   at return 0
+//@     before[acknowledged_only_after_fsync] arg(0) == nil ==> dominatedBy(Sync, 1) && res(Sync, 1) == nil
+
+//@ func (*WriteAheadLog).Purge
+//@   property C11, C12
+//@   modifies auto
+//@   maypanic
+//@   ensures[drops_every_closed_file_entirely_below_the_epoch] forall(j, 0, len(wal.logFiles), wal.logFiles[j].maxEpoch >= keepEpoch, trigger(wal.logFiles[j]))
+//@   ensures[never_touches_the_active_file] wal.active.file == old(wal.active.file) && wal.active.logName == old(wal.active.logName) && wal.active.maxEpoch == old(wal.active.maxEpoch)
+//@   loop 1
+//@     invariant wal.logFiles == old(wal.logFiles) && forall(j, 0, len(keptLogFiles), keptLogFiles[j].maxEpoch >= keepEpoch, trigger(keptLogFiles[j]))
+//@   at loopback 1
+//@     before[a_file_is_dropped_only_if_entirely_below_the_epoch] c.maxEpoch < keepEpoch || (len(keptLogFiles) == len(prev(keptLogFiles)) + 1 && keptLogFiles[len(keptLogFiles)-1] == c)
+//@     before[files_kept_so_far_stay_kept_in_order] len(keptLogFiles) >= len(prev(keptLogFiles)) && forall(j, 0, len(prev(keptLogFiles)), keptLogFiles[j] == prev(keptLogFiles)[j], trigger(keptLogFiles[j]))
+//@   at Remove 1
+//@     before[removes_only_files_entirely_below_the_epoch] c.maxEpoch < keepEpoch
+//@   at return 0
+//@     before[the_kept_list_becomes_the_file_list] wal.logFiles == keptLogFiles
+
+//@ func (*WriteAheadLog).flush
+//@   property C11, C12
+//@   modifies auto
+//@   maypanic
+//@   ensures[closed_file_keeps_its_stat] result == nil && old(wal.active.file) != nil ==> len(wal.logFiles) == old(len(wal.logFiles)) + 1
+//@        && wal.logFiles[len(wal.logFiles)-1].logName == old(wal.active.logName) && wal.logFiles[len(wal.logFiles)-1].maxEpoch == old(wal.active.maxEpoch)
+//@        && wal.active.file == nil && wal.active.maxEpoch == 0
+//@   ensures result == nil && old(wal.active.file) == nil ==> len(wal.logFiles) == old(len(wal.logFiles))
+
+//@ func (*WriteAheadLog).rotate
+//@   property C11, C12
+//@   requires wal.active.file == nil ==> wal.active.maxEpoch == 0
+//@   modifies auto
+//@   maypanic
+//@   at OpenFile 1
+//@     before[never_reopens_an_existing_file_for_writing] arg(1) == 193 && arg(0) == res(Join, 1)
+//@   ensures[a_new_file_starts_with_an_empty_stat] result == nil ==> wal.active.file != nil && wal.active.maxEpoch == 0
+
+//@ func (*WriteAheadLog).hydrate
+//@   property C11, C12
+//@   modifies auto
+//@   maypanic
+//@   at loopback 1
+//@     before[each_log_file_is_listed_with_the_stat_read_from_it] !res(HasSuffix, 1) || (len(wal.logFiles) > 0 && wal.logFiles[len(wal.logFiles)-1] == res(readLogFile, 1, 0) && res(readLogFile, 1, 2) == nil)
